@@ -71,6 +71,7 @@ int main(void) {
     char *line = NULL; size_t cap = 0; ssize_t n;
     char **argv = NULL; size_t argcap = 0;
     if (sodium_init() < 0) { fprintf(stderr, "sodium_init failed\n"); return 3; }
+    setvbuf(stdout, NULL, _IOLBF, 1 << 16);   /* line buffered: on a crash every completed op has been reported */
     while ((n = getline(&line, &cap, stdin)) > 0) {
         int argc = 0, handled = 0; char *save, *tok; size_t t;
         while (n > 0 && (line[n - 1] == '\n' || line[n - 1] == '\r')) line[--n] = 0;
